@@ -804,10 +804,9 @@ func (s *spec) Step(w *engine.World, ctx sdk.Context, mm engine.Model, ev string
 
 // Run executes the configurations for the owning property and keeps that property's monitors.
 func Run(r *engine.Run, owner string, cfgs []Cfg, quickCap, thoroughCap time.Duration) {
-	deadline := r.Deadline(quickCap, thoroughCap)
 	for i, c := range cfgs {
 		sp := &spec{cfg: c}
-		sr := engine.Search(sp, engine.SearchOpts{Depth: c.Depth, Deadline: deadline})
+		sr := engine.Search(sp, engine.SearchOpts{Depth: c.Depth, Deadline: r.SliceDeadline(i, len(cfgs), quickCap, thoroughCap)})
 		var keep []engine.FoundViolation
 		for _, v := range sr.Violations {
 			if strings.HasPrefix(v.Fingerprint, owner+"/") || strings.HasPrefix(v.Fingerprint, "block-halt") {
